@@ -108,7 +108,7 @@ def tlc_cmd(spec, cfgfile, metadir, workers=1, xmx="3g", extra=None):
            "-Dtlc2.overrides.TLCOverrides=tlc2.overrides.TLCOverrides:CrrlOverrides",
            "-Dtlc2.tool.queue.IStateQueue=StateDeque",
            "-cp", cp, "tlc2.TLC", "-workers", str(workers), "-metadir", metadir, "-cleanup",
-           "-noGenerateSpecTE", "-config", cfgfile]
+           "-noGenerateSpecTE", "-checkpoint", "0", "-config", cfgfile]   # StateDeque cannot checkpoint (TLC would try after 30 min)
     if extra:
         cmd += extra
     cmd.append(os.path.join(SPEC, spec + ".tla"))
